@@ -11,7 +11,8 @@ for d in sorted(os.listdir(os.path.join(V, "seeded"))):
         rows[d] = json.load(open(mp))
 R5 = [d for d in rows if rows[d].get("round") == 5]
 R6 = [d for d in rows if rows[d].get("round") == 6]
-R12 = [d for d in rows if d not in R3 and d not in R4 and d not in R5 and d not in R6]
+R7 = [d for d in rows if rows[d].get("round") == 7]
+R12 = [d for d in rows if d not in R3 and d not in R4 and d not in R5 and d not in R6 and d not in R7]
 
 
 def table(names):
@@ -35,7 +36,8 @@ out = ["# Seeded breaking changes (written independently by sub-agents)\n",
        "| round | seeds | reported as shipped | reported after additions | still missed |", "|---|---|---|---|---|",
        "| 1+2 | 18 | 4 | 17 | C11-1 |", "| 3 | 14 | 5 | 14 | — |", "| 4 | 10 | 4 | 9 | C09-2 |",
        "| 5 | 36 | 9 | 27 | " + " ".join(d for d in R5 if rows[d]["detected_by"].startswith("missed")) + " |",
-       "| 6 | 36 | 8 | 19 | " + " ".join(d for d in R6 if rows[d]["detected_by"].startswith("missed")) + " |\n",
+       "| 6 | 36 | 8 | 19 | " + " ".join(d for d in R6 if rows[d]["detected_by"].startswith("missed")) + " |",
+       "| 7 | 36 | %d | %d | " % (first_contact(R7), sum(1 for d in R7 if not rows[d]["detected_by"].startswith("missed"))) + " ".join(d for d in R7 if rows[d]["detected_by"].startswith("missed")) + " |\n",
        "## Rounds 1 and 2 (18 seeds, one per claimed property)\n",
        "First contact: 4 of 18 (C07-1, C10-1, C14-1, C19-1). For 13 of the 14 misses a structural or relational necessary condition exists and a",
        "rule was added (each run program-wide and read for false reports before arming); C11-1 stays missed (which slots the compaction may drop",
@@ -57,6 +59,13 @@ out += ["\n## Round 6 (36 seeds: per property one wrong-identifier slip (sibling
         "reference of the unchanged tree (MUSTCHECK, RESULTCLASS, ARGDEVIANT, INDEXSTEP) or state a pairing (FINIPATHS, CLONEFREE, BUFINSTALL, ERANGE, CUTSPEC);",
         "17 stay missed: most replace one identifier by a sibling of the same type.\n"]
 out += table(R6)
+out += ["\n## Round 7 (36 seeds: per property one initialisation / reset / stale-state slip and one type / width / sign slip)\n",
+        "First contact: 5 of 36 - the weakest round so far. The type slips turned out to have exact, type-resolved necessary conditions (a comparison that",
+        "is constant by its operand types, bytes compared with different signedness, a mask outside the variable's type, sizeof of a pointer as a length, a",
+        "narrowing local whose source range does not fit): 15 of the 18 are reported now. Of the stale-state slips 6 are reported by new pairing / typestate",
+        "rules (STALEBUF, INITWRITES, FINIBOUND, INITLIVE, PARKRESTORE, SPARSEZERO, ERANGE window, ERRFX through helpers); 10 seeds stay missed, most of them a",
+        "dropped reset of one field whose required value only a history of calls shows.\n"]
+out += table(R7)
 out.append("\n## Behaviour-preserving refactorings (false-alarm test)\n")
 out.append("Eight further agents produced 40 behaviour-preserving refactorings (renames, loop rewrites, helper extraction, condition restructuring,")
 out.append("temporaries) in the files with the densest rules, each with a differential driver showing identical behaviour. `tools/benign_test.sh` runs")
